@@ -134,7 +134,7 @@ def run(ctx):
                         Pr = utils.real_expand(Pi); bound = info['residual_norms'][-1] * fro(Pi) * np.linalg.norm(np.linalg.pinv(Pr), 2) / math.sqrt(n)
                         if tr > bound * (1 + 1e-6) + 1e-12: viol('C13:rsp:flag', f'RSP converged flag with true residual {tr:.3e} above the sketch bound {bound:.3e}', inp, tr, bound)
                         if tr > 100 * 1e-6: viol('C13:rsp:flag-multiple', f'RSP reports converged with true residual {tr:.3e} > 100 tol', inp, tr)
-                        if fro(X - pinv(An)) > 1e-2: viol('C13:rsp:pinv', 'converged RSP result is far from the pseudoinverse', inp, fro(X - pinv(An)))
+                        if fro(X - pinv(An)) > 1e-3 * fro(pinv(An)): viol('C13:rsp:pinv', 'converged RSP result is far from the pseudoinverse', inp, fro(X - pinv(An)))
                     if info['iterations'] != len(info['residual_norms']): viol('C13:rsp:info', 'iterations != len(residual_norms)', inp)
                     ctx.count(('rsp', m, n, seed, cs, bs), True)
         # monitoring sketch of the same width as the iteration block (and narrower than n): the test sketch must stay independent of the iterates
@@ -166,6 +166,8 @@ def run(ctx):
                     Pr = utils.real_expand(Pi); bound = info['residual_norms'][-1] * fro(Pi) * np.linalg.norm(np.linalg.pinv(Pr), 2) / math.sqrt(n)
                     if tr > bound * (1 + 1e-6) + 1e-12: viol('C13:hybrid:flag', f'hybrid converged flag with true residual {tr:.3e} above the sketch bound {bound:.3e}', inp, tr, bound)
                     if tr > 100 * 1e-6: viol('C13:hybrid:flag-multiple', f'hybrid reports converged with true residual {tr:.3e} > 100 tol', inp, tr)
+                    # a left inverse is not enough: X must be THE pseudoinverse (it has to stay in the row space of A^H), to cond-scaled accuracy
+                    if fro(X - pinv(An)) > 1e-3 * fro(pinv(An)): viol('C13:hybrid:pinv', f'converged hybrid result is a left inverse but not the pseudoinverse (relative distance {fro(X - pinv(An)) / fro(pinv(An)):.2e})', inp, fro(X - pinv(An)))
                 # hyper-power identity on the implementation: I - X'A = (I - XA)^p
                 X0 = utils.quat_hermitian(An) * (1.0 / fro(An) ** 2)
                 X1 = h._ns_hyperpower_right(An, X0)
